@@ -92,6 +92,14 @@ def main(argv=None):
     os.environ.setdefault("PYTHONHASHSEED", "0")
     sys.path.insert(0, REPO)
     sys.setrecursionlimit(10000)
+    if os.environ.get("CVH_DUMP_AFTER"):
+        import faulthandler
+        faulthandler.dump_traceback_later(int(os.environ["CVH_DUMP_AFTER"]), exit=True)
+    try:
+        import resource
+        resource.setrlimit(resource.RLIMIT_AS, (8 << 30, resource.getrlimit(resource.RLIMIT_AS)[1]))   # soft limit: a runaway allocation fails instead of swapping
+    except Exception:
+        pass
     import construct
     if not os.path.abspath(construct.__file__).startswith(REPO + "/construct"):
         print("MACHINERY: construct imported from %s, not from %s" % (construct.__file__, REPO))
